@@ -4,7 +4,7 @@ R-C04a  memo-key domain separation in LowerDimExpr: every producer that memoises
         argument tags its key with a producer-specific constant prefix (or separator); no two producers share
         a key shape, so `(factor, power)` and `(term, coefficient)` can never collide
 R-C04b  dimension-operation table: each branch of _convert_op emits the operator the reference assigns
-        (floordiv->Div, mod->Mod, max->Max, min->Min) with the operands in order; unknown operations raise
+        (floordiv->Div plus a floor correction, mod->Mod, max->Max, min->Min) with the operands in order; unknown operations raise
 R-C04c  origin pairing: every value that becomes a graph input for a jaxpr variable gets its symbolic
         dimension origins recorded on that same value on every normal path; callers of the
         *_without_origins binder record them explicitly
@@ -124,6 +124,8 @@ def run(res: Results, idx: Index, tier: str) -> None:
             want = OP_TABLE.get(opname)
             if want is None:
                 res.unresolved("R-C04b", f"{LD}:{cur.lineno}", key, f"no reference operator for dimension operation '{opname}'", conv.qualname)
+            elif opname == "floordiv" and op == "Div" and in_order and len(emitted) == 1:
+                res.violation("R-C04b", f"{LD}:{emitted[0].lineno}", key, "dimension operation 'floordiv' is lowered to a bare integer Div: ONNX Div truncates toward zero while JAX's `//` floors, so a dimension expression with a negative numerator ((B - 5) // 2 at B = 2 or 4) evaluates one too high; a floor correction (q - (r != 0 and sign(r) != sign(b))) is missing", conv.qualname)
             elif op == want and in_order:
                 res.ok("R-C04b", f"{LD}:{emitted[0].lineno}", key, f"{opname} -> {op}, operands in order", conv.qualname)
             else:
@@ -226,6 +228,7 @@ def run(res: Results, idx: Index, tier: str) -> None:
             res.violation("R-C04d", f"{mod.rel}:{c.lineno}", key, f"scope `{sc.id}` is not a single SymbolicScope created once (defs: {len(defs)}, created in a loop: {in_loop})", fi.qualname)
 
     rule_f(res, idx)
+    rule_g(res, idx)
     # ---- R-C04e: two symbols are never assumed equal outside the dimension lowering either
     # (decided by their own properties' rules; re-decided here because they are C04's clause "equal/unequal symbols")
     if not getattr(res, "_nested_xref", False):
@@ -324,3 +327,59 @@ def _parents(n: ast.AST):
 def _in_body(n: ast.AST, body) -> bool:
     ids = {id(x) for st in body for x in ast.walk(st)}
     return id(n) in ids
+
+
+# ---------------------------------------------------------------------------------------------- R-C04g
+def rule_g(res: Results, idx: Index) -> None:
+    """Shape rules (abstract_eval and friends) that treat static and symbolic extents in separate branches must compute the
+    same function in both: where the static branch aggregates a list of per-operand sizes (`sum(...)`), the symbolic branch
+    may not take a single element of that list (`sizes[0]`) — concatenating B and B rows is 2*B rows, not B."""
+    res.rule("R-C04g", "static and symbolic branches of a shape rule aggregate the per-operand sizes in the same way", floor=0)
+    n = 0
+    for m in idx.product_modules():
+        if "/plugins/" not in m.rel:
+            continue
+        for fi in m.funcs.values():
+            for st in walk_no_nested(fi.node):
+                if not (isinstance(st, ast.If) and st.orelse):
+                    continue
+                t = st.test
+                if not (isinstance(t, ast.Call) and (call_name(t) or "") == "all" and t.args and isinstance(t.args[0], (ast.GeneratorExp, ast.ListComp))):
+                    continue
+                gen = t.args[0]
+                if not any(isinstance(x, ast.Call) and (call_name(x) or "") == "isinstance" for x in ast.walk(gen.elt)):
+                    continue
+                lst = dotted(gen.generators[0].iter)
+                if not lst:
+                    continue
+                body_sum = any(isinstance(x, ast.Call) and (call_name(x) or "") in ("sum", "math.prod", "np.sum", "np.prod") and lst in names_in(x) for b in st.body for x in ast.walk(b))
+                if not body_sum:
+                    continue
+                n += 1
+                key = f"{m.rel}::{fi.qualname}::static-vs-symbolic::{lst}"
+                site = f"{m.rel}:{st.lineno}"
+                picks = [x for b in st.orelse for x in ast.walk(b) if isinstance(x, ast.Assign) and isinstance(x.value, ast.Subscript) and isinstance(x.value.value, ast.Name) and x.value.value.id == lst and isinstance(x.value.slice, ast.Constant)]
+                aggregates = any((isinstance(x, ast.Call) and (call_name(x) or "") in ("sum", "reduce", "functools.reduce") and lst in names_in(x)) or (isinstance(x, ast.For) and lst in names_in(x.iter)) for b in st.orelse for x in ast.walk(b))
+                if picks and not aggregates:
+                    res.violation("R-C04g", f"{m.rel}:{picks[0].lineno}", key, f"with static extents the result is the sum over `{lst}`, with symbolic extents it is `{src(picks[0].value, 30)}` alone: the symbolic output dimension ignores all but one operand", fi.qualname)
+                else:
+                    res.ok("R-C04g", site, key, "both branches aggregate every operand's size", fi.qualname)
+    res.analysed["static_symbolic_shape_branches"] = n
+    import textwrap
+    from ..index import Module as Mod
+    cm = Mod("<control>", "<control>", "control_c04g", textwrap.dedent("""
+        def abstract_eval(*arrays, axis=0):
+            sizes = [a.shape[axis] for a in arrays]
+            out = list(arrays[0].shape)
+            if all(isinstance(s, int) for s in sizes):
+                out[axis] = int(sum(sizes))
+            else:
+                out[axis] = sizes[0]
+            return out
+    """))
+    f = cm.funcs["abstract_eval"]
+    hit = False
+    for st in ast.walk(f.node):
+        if isinstance(st, ast.If) and st.orelse:
+            hit = any(isinstance(x, ast.Assign) and isinstance(x.value, ast.Subscript) and isinstance(x.value.value, ast.Name) and x.value.value.id == "sizes" for b in st.orelse for x in ast.walk(b))
+    res.control("R-C04g", "a symbolic branch that takes sizes[0] where the static branch sums is recognised", hit, "")
